@@ -156,6 +156,7 @@ def one_sequence(run, drv, rng, nops):
                          "popitem", "setdefault", "set_", "update_", "fill_", "flatten_inplace", "replace", "set_node", "del_node", "rename_node",
                          "requires_grad_", "to_half_and_back"])
         desc = op
+        unexpected = None
         try:
             with time_limit(60):
                 if op in ("set", "setitem"):
@@ -205,7 +206,7 @@ def one_sequence(run, drv, rng, nops):
                 elif op == "to_double":
                     holder.double()
                 elif op == "load_state_dict":
-                    sd = {k: v.clone() for k, v in holder.state_dict().items()}
+                    sd = {k: (v.clone() if isinstance(v, torch.Tensor) else v) for k, v in holder.state_dict().items()}   # ('__batch_size' / '__device' are not tensors)
                     holder.load_state_dict(sd)
                 elif op == "deepcopy":
                     import copy
@@ -281,9 +282,18 @@ def one_sequence(run, drv, rng, nops):
             raise
         except Exception as e:  # noqa: BLE001
             outcome = type(e).__name__
+            legit = isinstance(e, RuntimeError) and ("lock" in str(e).lower()
+                                                     # torch: deepcopy of a tensor with a grad_fn (a cloned Parameter kept with its graph, no_convert=True)
+                                                     or (op == "deepcopy" and "graph leaves" in str(e))) \
+                or (op == "flatten_inplace" and isinstance(e, KeyError) and "collide" in str(e))      # two leaves would get the same flat name
+            if not legit:
+                unexpected = f"{type(e).__name__}: {str(e)[:120]}"
         trace.append(f"{desc} -> {outcome}")
         run.count("tdparams.op", op)
         run.count("tdparams.outcome", "ok" if outcome == "ok" else "raised")
+        if unexpected is not None:
+            # only "the tensordict is locked" is an expected refusal of these operations
+            run.oracle_fail("params_op", list(trace), f"{desc} raised {unexpected}", f"tdparams:op-raised:{op}:{outcome}")
         ok = check(run, holder, list(trace))
         model_tie(run, drv, tdp, trace)
         if not ok:
